@@ -2,36 +2,16 @@
 
 package hls
 
-import (
-	"testing"
-
-	kit "github.com/bluenviron/mediamtx/internal/verifkit"
-)
-
 // Helper definition of internal/protocols/hls (to_stream.go) and its callers:
 //
 //	multiplyAndDivide  to_stream.go:104,121,141,161,179,206,227,244
 //	                   (pts, newClockRate | sampleRate [int], ctrack.ClockRate [int])               rate->rate
 //
 // Both arguments are clock rates held in an int; neither is a literal.
-func c24Helpers() (string, []c24Helper) {
-	return "internal/protocols/hls", []c24Helper{
-		{
-			name:   "hls.multiplyAndDivide",
-			fn:     multiplyAndDivide,
-			shapes: []c24Shape{c24RateToRate},
-		},
-	}
-}
+// Each helper registers itself from its own file (c24_h_*_test.go), so that a tree in which a helper was
+// removed or renamed still lets the driver build the other helpers of the package (optional harness files).
+var c24Registry []c24Helper
 
-// TestVerifC24RegressRateWrap pins the confirmed finding C24-rate-to-rate-wrap on this copy (see the stream copy).
-func TestVerifC24RegressRateWrap(t *testing.T) {
-	if kit.Known(c24KnownKey) {
-		t.Skip("listed as known finding " + c24KnownKey)
-	}
-	const rate = int64(1)<<32 - 1
-	v := int64(1)<<31 + 1
-	if got := multiplyAndDivide(v, rate, rate); got != v {
-		t.Fatalf("multiplyAndDivide(%d, %d, %d) = %d, exact result is %d", v, rate, rate, got, v)
-	}
+func c24Helpers() (string, []c24Helper) {
+	return "internal/protocols/hls", c24Registry
 }
